@@ -113,8 +113,55 @@ def o_history(inp):
     return []
 
 
+def o_piece(inp):
+    """bar splitting (either re-quantisation setting) of a multi-track piece, bars rebuilt into a composition and back"""
+    from scoda.sequences.sequence import Sequence
+    from scoda.elements.composition import Composition
+    seqs = [P.seq_of_rel([tuple(m) for m in r]) for r in inp["tracks"]]
+    for i, q in enumerate(seqs):
+        f = check_seq(f"input track {i}", q)
+        if f:
+            return [("~skip:outside-domain", "")]
+    try:
+        tb = Sequence.sequences_split_bars(seqs, meta_track_index=0, quantise_note_lengths=inp.get("requant", True))
+    except Exception:
+        return [("~skip:split-bars-raises", "")]
+    for ti, bars in enumerate(tb):
+        for bi, b in enumerate(bars):
+            f = check_seq(f"bar {ti}/{bi}", b.sequence)
+            if f:
+                return f
+            try:
+                f = check_seq(f"bar {ti}/{bi} to_sequence", b.to_sequence([b]) if hasattr(b, "to_sequence") else b.sequence)
+            except Exception:
+                f = []
+            if f:
+                return f
+    try:
+        comp = Composition.from_sequences([P.seq_of_rel([tuple(m) for m in r]) for r in inp["tracks"]])
+        for ti, sq in enumerate(comp.to_sequences()):
+            f = check_seq(f"composition track {ti}", sq)
+            if f:
+                return f
+    except Exception:
+        pass
+    return []
+
+
+def o_bar(inp):
+    """Bar construction (padding, signature message) from a relative sequence"""
+    from scoda.elements.bar import Bar
+    try:
+        b = Bar(P.seq_of_rel([tuple(m) for m in inp["rel"]]), inp["num"], inp["den"], None)
+    except Exception:
+        return [("~skip:bar-raises", "")]
+    return check_seq("bar", b.sequence)
+
+
 def setup(ctx):
     ctx.oracle("history", o_history)
+    ctx.oracle("piece", o_piece)
+    ctx.oracle("bar", o_bar)
 
 
 def generate(ctx):
@@ -133,6 +180,9 @@ def generate(ctx):
         rel = [m for m in rel if m[0] != TIMESIG]
         n, d = rng.choice([(4, 4), (3, 4), (6, 8), (5, 8), (7, 8), (3, 8)])
         ctx.corr("bar", P.op_bar(n, d, None, rel))
+        ctx.check("bar", {"rel": rel, "num": n, "den": d})
         piece = G.gen_piece(rng, unequal=True, tail_ok=True)
-        ctx.corr("splitBars", P.op_splitBars(0, rng.random() < 0.5, piece["tracks"]))
+        rq = rng.random() < 0.5
+        ctx.corr("splitBars", P.op_splitBars(0, rq, piece["tracks"]))
+        ctx.check("piece", {"tracks": piece["tracks"], "requant": rq})
         ctx.sample({"init": [init[0], init[1][:4]], "ops": [o[0] for o in ops]})
